@@ -116,7 +116,7 @@ def chi_body(case):
 def pcomp_case(draw):
     return dict(no=draw(st.one_of(st.integers(20, 80), st.integers(20, 80), st.integers(3, 8))), nv=draw(st.sampled_from([3, 4, 2, 6, 5])), seed=draw(st.integers(0, 10 ** 6)),
                 covariance=draw(st.booleans()), standardize=draw(st.booleans()), scale=draw(st.sampled_from([1.0, 100.0])),
-                offset=draw(st.sampled_from([3.0, 3.0, 1e8, 2.4e6])))
+                offset=draw(st.sampled_from([3.0, 3.0, 1e8, 2.4e6])), constcol=draw(st.sampled_from([None, None, None, 0, 1])))
 
 
 def pcomp_body(case):
@@ -124,6 +124,10 @@ def pcomp_body(case):
     no, nv = case['no'], case['nv']
     mix = pseudo(case['seed'] + 5, (nv, nv))
     X = pseudo(case['seed'], (no, nv)).dot(mix) * case['scale'] + case.get('offset', 3.0)       # e.g. Julian dates: an offset 1e6-1e8 times the scatter
+    if case.get('constcol') is not None and case['covariance'] and not case['standardize']:
+        # a variable that does not vary (covariance mode: a zero row / column, one eigenvalue 0)
+        X[:, case['constcol']] = 7.0
+        note_label('constant-variable')
     keep = X.copy()
     p = call(pcomp, X, standardize=case['standardize'], covariance=case['covariance'])
     arr = (X - X.mean(0)) / X.std(0) if case['standardize'] else X
@@ -183,10 +187,15 @@ def hmf_data(case):
         mask[rows, j] = False
     for q in range(case.get('dead', 0)):
         mask[:, (seed + 7 * q + 1) % M] = True
+    for q in range(case.get('dead_edge', 0)):
+        # pixels at the ends of the range that are masked in every spectrum (beyond the wavelength coverage)
+        mask[:, q // 2 if q % 2 == 0 else M - 1 - q // 2] = True
     iv[mask] = 0.0
     # spectra with one error bar for all their pixels (the same inverse variance everywhere, nothing masked)
     for q in range(case.get('uniform', 0)):
         iv[(seed + 3 * q) % N, :] = (4.0, 0.25, 2.5)[q % 3]
+    for q in range(case.get('dead_edge', 0)):
+        iv[:, q // 2 if q % 2 == 0 else M - 1 - q // 2] = 0.0
     # flux units: the same spectra in units S times smaller (values S times larger, inverse variances S^2 times smaller)
     S = case.get('scale', 1.0)
     return sp * S, iv / S ** 2
@@ -268,6 +277,7 @@ def hmf_solve_case(draw):
     base['scale'] = 1.0
     if nn and draw(st.booleans()):
         base['epsilon'] = draw(st.sampled_from([10.0, 100.0, 1e4]))        # a strong smoothness penalty (non-negative mode only)
+    base['dead_edge'] = draw(st.sampled_from([0, 0, 1, 2, 3]))
     return dict(base, nonnegative=nn, hseed=draw(st.sampled_from([0, 7, 12345, 1, 0])), n_iter=draw(st.sampled_from([3, 5])),
                 state1=draw(st.integers(1, 10 ** 6)), state2=draw(st.integers(1, 10 ** 6)))
 
